@@ -204,6 +204,16 @@ def check(program: Program, run: Run) -> None:
         if not f.is_builder:
             run.finding(f"C16/not-builder:{f.qualname}", f"{f.qualname} is not @builder: it rewrites the receiver in place", where=f.loc(), rule="R4")
 
+    # R4b (inherited from C01/R4b): @builder only copies while the immutable switch is on
+    from .c01 import check_immutable_switch
+    sub01 = Run("C01", run.tier)
+    check_immutable_switch(program, sub01)
+    for fd in sub01.findings:
+        if fd.key.startswith("C01/immutable-off:"):
+            cn = fd.key.split(":", 1)[1]
+            if program.find_cls(cn) is not None and program.cls(cn).resolve("replace_table") is not None:
+                run.finding("C16/receiver-rewritten:" + cn, "replace_table of this class rewrites the receiver (and every query sharing it) instead of a copy: " + fd.what, where=fd.where, rule="R4 (inherited from C01/R4b)")
+
     # R5: `x.replace_table(..) if x.fields_() else x` looks like an optimisation, but what a child *reports* (fields_,
     # tables_, is_aggregate ...) is not what it *contains* (a subquery reports no fields)
     nrw = 0
